@@ -608,7 +608,18 @@ func (s *scen) submitProposal() {
 		}
 		content, name = clienttypes.NewRegisterRelayerProposal("t", "d", rel.Acc.String(), chains, addrs), "RegisterRelayer(again)"
 	case 0:
-		content, name = clienttypes.NewRegisterRelayerProposal("t", "d", w.Outsider.Acc.String(), []string{w.Chains[1].ChainID, bscName}, []string{"0x1", "0x2"}), "RegisterRelayer"
+		// (stateless validation lets a proposal list a chain more than once, in any order)
+		chains, addrs := []string{w.Chains[1].ChainID, bscName}, []string{"0x1", "0x2"}
+		switch s.ch.Intn("relayerChains", 3) {
+		case 1:
+			chains, addrs = append(chains, ethName, w.Chains[1].ChainID), append(addrs, "0x3", "0x1")
+		case 2:
+			chains, addrs = append(chains, ethName, "polygon", "arbitrum", bscName, "qa-net", ethName), append(addrs, "0x3", "0x4", "0x5", "0x2b", "0x6", "0x3b")
+		}
+		content, name = clienttypes.NewRegisterRelayerProposal("t", "d", w.Outsider.Acc.String(), chains, addrs), "RegisterRelayer"
+		if len(chains) > 2 {
+			name = "RegisterRelayer(chain listed twice)"
+		}
 	case 1:
 		cs := &tsstypes.ClientState{TssAddress: w.TSS.Acc.String(), Pubkey: []byte("k"), PartPubkeys: [][]byte{[]byte("p")}, Threshold: 1}
 		cc, err := clienttypes.NewCreateClientProposal("t", "d", fmt.Sprintf("tss-extra-%d", s.props), cs, &tsstypes.ConsensusState{})
